@@ -25,6 +25,9 @@ pub enum Init {
     ParaFromStr(String),
     /// Deb822::new()
     New,
+    /// the text parsed and then reformatted by Deb822::wrap_and_sort (paragraphs through Paragraph::wrap_and_sort with
+    /// one-space indentation): a tree assembled by the reformatter, not by the parser
+    Reformatted(String),
 }
 
 #[derive(Clone, Serialize, Deserialize, PartialEq, Debug)]
@@ -91,6 +94,13 @@ impl Live {
                 Some((Live { doc: None, solo: Some(para) }, vec![p.clone()]))
             }
             Init::New => Some((Live { doc: Some(Deb822::new()), solo: None }, vec![])),
+            Init::Reformatted(t) => {
+                let d0 = Deb822::from_str(t).ok()?;
+                let wp = |p: &Paragraph| p.wrap_and_sort(deb822_lossless::Indentation::Spaces(1), false, None, None, None);
+                let d = d0.wrap_and_sort(None, Some(&wp));
+                let m: DModel = d.paragraphs().map(|p| p.items().collect()).collect();
+                Some((Live { doc: Some(d), solo: None }, m))
+            }
             Init::ParaFromStr(t) => {
                 let p = Paragraph::from_str(t).ok()?;
                 // the handle still belongs to the document it was parsed from
